@@ -20,6 +20,15 @@
 #include <atomic>
 #include <functional>
 
+#if defined(__has_feature)
+#  if __has_feature(address_sanitizer) || __has_feature(thread_sanitizer)
+#    define VH_CLANG_SANITIZER 1
+#  endif
+#endif
+#ifndef VH_CLANG_SANITIZER
+#  define VH_CLANG_SANITIZER 0
+#endif
+
 namespace vh {
 
 // ---------------------------------------------------------------- PRNG
@@ -111,6 +120,7 @@ struct Args {
     uint64_t from = 0, count = 1;
     std::string tier = "quick", mode, out;
     bool verbose = false;
+    std::string hex;         // run exactly this input (hex bytes) instead of generated cases (fuzz mode replay)
     bool beacon = false;     // write a progress line per case (used under valgrind, which may kill the process at an error)
     bool thorough() const { return tier == "thorough"; }
 };
@@ -119,6 +129,8 @@ static Args g_args;
 static int g_out_fd = 2;
 static volatile int64_t g_case_index = -1;      // beacon
 static volatile int g_clean_exit = 0;
+static const unsigned char *volatile g_cur_data = 0;   // current raw input (fuzz mode): dumped by the crash beacon
+static volatile size_t g_cur_size = 0;
 static std::atomic<uint64_t> g_progress{0};
 static uint64_t g_evaluations = 0;
 static std::map<std::string, uint64_t> g_counters;
@@ -178,9 +190,18 @@ static inline void describe_case(const std::string &desc, const std::vector<std:
 // ---------------------------------------------------------------- crash beacon
 static inline void sig_write(const char *kind)
 {
-    char buf[160];
-    int n = snprintf(buf, sizeof buf, "\n{\"t\":\"crash\",\"index\":%lld,\"kind\":\"%s\"}\n",
+    static char buf[160 + 2 * 1024];
+    int n = snprintf(buf, 160, "\n{\"t\":\"crash\",\"index\":%lld,\"kind\":\"%s\"",
                      (long long)g_case_index, kind);
+    const unsigned char *d = g_cur_data;
+    size_t dn = g_cur_size;
+    if(d && dn <= 1024) {
+        static const char *hx = "0123456789abcdef";
+        n += snprintf(buf + n, 16, ",\"hex\":\"");
+        for(size_t i = 0; i < dn; ++i) { buf[n++] = hx[d[i] >> 4]; buf[n++] = hx[d[i] & 15]; }
+        buf[n++] = '"';
+    }
+    buf[n++] = '}'; buf[n++] = '\n';
     ssize_t r = write(g_out_fd, buf, n);
     (void)r;
 }
@@ -226,6 +247,7 @@ static inline void parse_args(int argc, char **argv)
         else if(a == "--out") g_args.out = nxt();
         else if(a == "--verbose") g_args.verbose = true;
         else if(a == "--beacon") g_args.beacon = true;
+        else if(a == "--hex") g_args.hex = nxt();
     }
 }
 
@@ -247,7 +269,7 @@ static inline void begin(int argc, char **argv)
     sigaltstack(&ss, 0);
     sa.sa_flags = SA_ONSTACK;
     sigaction(SIGABRT, &sa, 0);
-#if !defined(__SANITIZE_ADDRESS__) && !defined(__SANITIZE_THREAD__)
+#if !defined(__SANITIZE_ADDRESS__) && !defined(__SANITIZE_THREAD__) && !VH_CLANG_SANITIZER
     // under a sanitizer its own handler prints the report (then aborts)
     sigaction(SIGSEGV, &sa, 0);
     sigaction(SIGBUS, &sa, 0);
